@@ -182,7 +182,10 @@ struct World {
             sh_enter(99, 1);
             struct xcm_socket *c = xcm_accept(sv.ep.s);
             sh_leave();
-            if (!c) break;
+            if (!c) {
+                if (errno == EAGAIN) break;
+                continue; // a stale connection that failed during accept: consumed
+            }
             tmp.s = c;
             tmp.closed = false;
             x_close(tmp);
